@@ -187,7 +187,7 @@ pub fn variant(base: &Data, domain: Domain, v: usize, seed: u64) -> Data {
     d
 }
 
-pub const N_TWINS: usize = 5;
+pub const N_TWINS: usize = 6;
 
 /// Twin `t` of a data set: a data set with different rows AND different targets, built so that the
 /// fitted models tend to differ in as few stored parts as possible.
@@ -230,6 +230,25 @@ pub fn twin(d: &Data, domain: Domain, t: usize) -> Data {
             o.y_reg.reverse();
             o.y_bin.reverse();
             o.y_multi.reverse();
+        }
+        5 => {
+            // rows and targets in reverse order, and ONLY the largest class name / largest target
+            // replaced by a new, larger value: the label sets of the two fits overlap partly
+            o.x.reverse();
+            o.y_reg.reverse();
+            o.y_bin.reverse();
+            o.y_multi.reverse();
+            let bump = |y: &mut Vec<f64>| {
+                let hi = y.iter().cloned().fold(f64::MIN, f64::max);
+                for e in y.iter_mut() {
+                    if *e == hi {
+                        *e = hi + 5.0;
+                    }
+                }
+            };
+            bump(&mut o.y_bin);
+            bump(&mut o.y_multi);
+            bump(&mut o.y_reg);
         }
         _ => {
             // first column mirrored, the two (first two) class names swapped, regression target negated
